@@ -2,7 +2,7 @@
 (* C2S judge for C13.
    kind "patch":    [id, old, new, ops (annet.jsontools.make_patch), libops (jsonpatch.make_patch, unsorted), applied (document returned by
                      jsontools.apply_patch on the real bytes), appliedOk]
-   kind "fragment": [id, old, f, acl (list of glob patterns as key-segment lists), r, r2 (merge applied again), raised]
+   kind "fragment": [id, old, f, acl (list of glob patterns as key-segment lists), r, r2 (merge applied again), raised, inputsKept (old, f and the first result are as they were)]
    kind "filter":   [id, d, out, raised]                                                                                              *)
 EXTENDS JsonDoc, TLC, Json, IOUtils
 Recs == ndJsonDeserialize(IOEnv.TRACE_FILE)
@@ -19,6 +19,7 @@ VerdictFragment(r) ==
   IF r.raised THEN <<"merge-raised", "">>
   ELSE LET v == FragmentVerdict(r.old, r.f, r.acl, r.r) IN
        IF v # "ok" THEN <<v, "">>
+       ELSE IF ~r.inputsKept THEN <<"merge-changed-a-document-of-its-caller", "">>
        ELSE IF ~DocEq(r.r2, r.r) THEN <<"merge-not-idempotent", "">>
        ELSE IF ~DocEq(r.r, Merge(r.old, r.f, r.acl)) THEN <<"ok", "drift">>
        ELSE <<"ok", "">>
